@@ -99,6 +99,20 @@ func getEmitModel(c *Ctx, m *vmModel) *emitModel {
 			}
 			return nil, true
 		}
+		// the opcode looked up in a read-only table literal: any of its values
+		if ix, ok := unparen(e).(*ast.IndexExpr); ok {
+			if tl := tableLiteral(c, info, ix.X); tl != nil && tl.info == info {
+				var out []string
+				unk := false
+				for _, en := range tl.entries {
+					o, u := resolve(en.val, in, depth+1)
+					out = append(out, o...)
+					unk = unk || u
+				}
+				return out, unk
+			}
+			return nil, true
+		}
 		id, ok := unparen(e).(*ast.Ident)
 		if !ok {
 			return nil, true
